@@ -8,34 +8,44 @@
    A tick reads the entries under the lock and spawns one job per loaded, unsuspended DAG, operation and matching
    minute (after the F-09a fix: one, however many expressions match; after F-09b: an expression that never matches
    yields no job).  start jobs are guarded by the latest status, stop jobs act only on a running DAG, restart jobs
-   always issue a restart.                                                                                        *)
+   always issue a restart.
+   The daemon's start-up is part of it: the directory is read when the daemon object is created (Init), the watch is
+   registered when the scheduler is started (StartWatch); file operations in between queue no event.               *)
 EXTENDS Integers, Sequences, FiniteSets, TLC
 
 CONSTANTS Dags, Horizon,
           Sched,            \* [Dags -> [start, stop, restart : SUBSET 0..Horizon]]
           MaxFileOps,       \* bound on file operations
-          ReleaseOnError    \* TRUE: the watcher's load-error path releases the lock (the code); FALSE: the seeded defects C09-b / C09-c
+          ReleaseOnError,   \* TRUE: the watcher's load-error path releases the lock (the code); FALSE: the seeded defects C09-b / C09-c
+          RescanOnWatch     \* TRUE: the watcher reads the directory again once the watch is registered (the code after the
+                            \* fix of F-09c); FALSE: the directory is read when the reader is created and never again
 
 Ops == {"start", "stop", "restart"}
 
-VARIABLES tick, wall, onDisk, loaded, fsq, lock, running, lastStart, jobs, issued, nfile
-vars == <<tick, wall, onDisk, loaded, fsq, lock, running, lastStart, jobs, issued, nfile>>
+VARIABLES tick, wall, onDisk, loaded, fsq, lock, running, lastStart, jobs, issued, nfile,
+          watching          \* the directory watch is registered: only from then on do file operations queue events
+vars == <<tick, wall, onDisk, loaded, fsq, lock, running, lastStart, jobs, issued, nfile, watching>>
 
 Init == /\ tick = 0 /\ wall = 0
         /\ onDisk \in [Dags -> {"valid", "invalid"}]
         /\ loaded = {d \in Dags : onDisk[d] = "valid"}            \* initDags: what loads at daemon start
         /\ fsq = <<>> /\ lock = "none" /\ running = {} /\ lastStart = [d \in Dags |-> -1]
-        /\ jobs = {} /\ issued = <<>> /\ nfile = 0
+        /\ jobs = {} /\ issued = <<>> /\ nfile = 0 /\ watching = FALSE
 
 \* ---- the file system and the watcher
 FileWrite(d, k) == /\ nfile < MaxFileOps /\ nfile' = nfile + 1
                    /\ onDisk' = [onDisk EXCEPT ![d] = k]
-                   /\ fsq' = Append(fsq, [d |-> d, ev |-> "write"])
-                   /\ UNCHANGED <<tick, wall, loaded, lock, running, lastStart, jobs, issued>>
+                   /\ fsq' = IF watching THEN Append(fsq, [d |-> d, ev |-> "write"]) ELSE fsq
+                   /\ UNCHANGED <<tick, wall, loaded, lock, running, lastStart, jobs, issued, watching>>
 FileRemove(d) == /\ nfile < MaxFileOps /\ nfile' = nfile + 1 /\ onDisk[d] # "gone"
                  /\ onDisk' = [onDisk EXCEPT ![d] = "gone"]
-                 /\ fsq' = Append(fsq, [d |-> d, ev |-> "remove"])
-                 /\ UNCHANGED <<tick, wall, loaded, lock, running, lastStart, jobs, issued>>
+                 /\ fsq' = IF watching THEN Append(fsq, [d |-> d, ev |-> "remove"]) ELSE fsq
+                 /\ UNCHANGED <<tick, wall, loaded, lock, running, lastStart, jobs, issued, watching>>
+\* the scheduler is started: the watcher registers the watch (the daemon has existed - and has held what initDags loaded -
+\* since Init; the file operations in between are the rest of its start-up) and, after the fix, reads the directory again
+StartWatch == /\ ~watching /\ lock = "none" /\ watching' = TRUE
+              /\ loaded' = IF RescanOnWatch THEN {d \in Dags : onDisk[d] = "valid"} \cup {d \in loaded : onDisk[d] = "invalid"} ELSE loaded
+              /\ UNCHANGED <<tick, wall, onDisk, fsq, lock, running, lastStart, jobs, issued, nfile>>
 \* one event, under the lock (taken and released inside the step: the error path releases it too)
 WatchApply == /\ fsq # <<>> /\ lock = "none"
               /\ LET e == Head(fsq) IN
@@ -44,15 +54,15 @@ WatchApply == /\ fsq # <<>> /\ lock = "none"
                            ELSE loaded                       \* load error: the entry stays as it was
               /\ fsq' = Tail(fsq)
               /\ lock' = IF Head(fsq).ev = "write" /\ onDisk[Head(fsq).d] # "valid" /\ ~ReleaseOnError THEN "watcher" ELSE "none"
-              /\ UNCHANGED <<tick, wall, onDisk, running, lastStart, jobs, issued, nfile>>
+              /\ UNCHANGED <<tick, wall, onDisk, running, lastStart, jobs, issued, nfile, watching>>
 
 \* ---- the tick (entryReader.Read under the lock, Scheduler.run)
-Tick == /\ tick <= Horizon /\ tick <= wall /\ lock = "none"
+Tick == /\ watching /\ tick <= Horizon /\ tick <= wall /\ lock = "none"
         /\ jobs' = jobs \cup {[d |-> x[1], op |-> x[2], next |-> tick] : x \in {y \in loaded \X Ops : tick \in Sched[y[1]][y[2]]}}
         /\ tick' = tick + 1
-        /\ UNCHANGED <<wall, onDisk, loaded, fsq, lock, running, lastStart, issued, nfile>>
+        /\ UNCHANGED <<wall, onDisk, loaded, fsq, lock, running, lastStart, issued, nfile, watching>>
 Clock == /\ wall < Horizon /\ wall' = wall + 1
-         /\ UNCHANGED <<tick, onDisk, loaded, fsq, lock, running, lastStart, jobs, issued, nfile>>
+         /\ UNCHANGED <<tick, onDisk, loaded, fsq, lock, running, lastStart, jobs, issued, nfile, watching>>
 Issue(j) == issued' = Append(issued, [d |-> j.d, op |-> j.op, m |-> j.next, wasRunning |-> j.d \in running])
 JobRun(j) ==
   /\ j \in jobs /\ jobs' = jobs \ {j}
@@ -65,13 +75,13 @@ JobRun(j) ==
                                ELSE UNCHANGED <<running, lastStart, issued>>
        [] j.op = "restart" ->
             /\ Issue(j) /\ running' = running \cup {j.d} /\ lastStart' = [lastStart EXCEPT ![j.d] = wall]
-  /\ UNCHANGED <<tick, wall, onDisk, loaded, fsq, lock, nfile>>
+  /\ UNCHANGED <<tick, wall, onDisk, loaded, fsq, lock, nfile, watching>>
 RunEnds(d) == /\ d \in running /\ running' = running \ {d}
-              /\ UNCHANGED <<tick, wall, onDisk, loaded, fsq, lock, lastStart, jobs, issued, nfile>>
+              /\ UNCHANGED <<tick, wall, onDisk, loaded, fsq, lock, lastStart, jobs, issued, nfile, watching>>
 
-Next == Tick \/ Clock \/ WatchApply \/ (\E j \in jobs : JobRun(j)) \/ (\E d \in Dags : RunEnds(d) \/ FileRemove(d))
+Next == StartWatch \/ Tick \/ Clock \/ WatchApply \/ (\E j \in jobs : JobRun(j)) \/ (\E d \in Dags : RunEnds(d) \/ FileRemove(d))
         \/ (\E d \in Dags, k \in {"valid", "invalid"} : FileWrite(d, k))
-Spec == Init /\ [][Next]_vars /\ WF_vars(Tick) /\ WF_vars(WatchApply) /\ WF_vars(Clock)
+Spec == Init /\ [][Next]_vars /\ WF_vars(StartWatch) /\ WF_vars(Tick) /\ WF_vars(WatchApply) /\ WF_vars(Clock)
 
 \* ---- properties
 \* whatever was issued was scheduled for that minute
@@ -82,7 +92,7 @@ C09_StopOnlyRunning == \A i \in DOMAIN issued : issued[i].op = "stop" => issued[
 C09_NoStartWhileRunning == \A i \in DOMAIN issued : issued[i].op = "start" => ~issued[i].wasRunning
 \* once the watcher has caught up, exactly the valid files are loaded - plus files that were overwritten with a
 \* malformed text after they had been loaded (what is held for those is not specified) - and no removed one
-C09_WatcherCatchesUp == fsq = <<>> => /\ \A d \in Dags : onDisk[d] = "valid" => d \in loaded
+C09_WatcherCatchesUp == watching /\ fsq = <<>> => /\ \A d \in Dags : onDisk[d] = "valid" => d \in loaded
                                       /\ \A d \in Dags : onDisk[d] = "gone" => d \notin loaded
 \* a malformed or removed file never stops the ticks (the other DAGs keep being scheduled)
 C09_TicksGoOn == <>(tick > Horizon)
